@@ -1,10 +1,11 @@
 (* C10 -- the device file follows the documented v1/v2/v3 layout.
    Codec theorems about the documented byte layout (Model/Bytes, Crc32c, Codec). The whole-file
    reader used as the "independent reader" is Model.Recovery.open_image (read-only mode). *)
-From Coq Require Import List NArith Bool.
+From Coq Require Import List NArith Bool Lia.
 From Feox Require Import Gen.Constants Model.Bytes Model.Crc32c Model.Codec Proofs.CodecProofs.
 From Feox Require Import Model.FreeSpace Model.Recovery Proofs.ScanAcceptsProofs Proofs.ScanQuiescentProofs.
 From Feox Require Proofs.FreeSpaceProofs.
+From Feox Require Import Model.MetaJournal Proofs.MetaJournalProofs.
 Import ListNotations.
 Local Open Scope N_scope.
 
@@ -378,38 +379,96 @@ Print Assumptions scan_reads_any_quiescent_data_area.
    block of the data area is free exactly when no live record's extent covers it *)
 Theorem quiescent_data_area_is_read_and_partitioned : forall c version total jl img,
   c_ro c = false -> has_token version = true -> total <= U64MAX ->
-  forall its st0,
+  forall its st0 fuel,
+  (length its < fuel)%nat ->
   rs_fs st0 = mkfs [] (total * FEOX_BLOCK_SIZE) 0 0 -> rs_last_end st0 = FEOX_DATA_START_BLOCK -> rs_idx st0 = [] ->
   total * FEOX_BLOCK_SIZE < U64 ->
   Forall (item_ok version) its -> distinct_keys (recs_of its) ->
   skipn (N.to_nat FEOX_DATA_START_BLOCK) img = ilayout version FEOX_DATA_START_BLOCK its ->
   total = FEOX_DATA_START_BLOCK + isum version its -> 0 < isum version its ->
   exists st' st'',
-    scan (S (length its)) c version total img FEOX_DATA_START_BLOCK st0 jl = Ok st' /\
+    scan fuel c version total img FEOX_DATA_START_BLOCK st0 jl = Ok st' /\
     (if rs_last_end st' <? total then fs_release st' (rs_last_end st') (total - rs_last_end st') else Ok st') = Ok st'' /\
     (forall r, In r (recs_of its) -> exists s, idx_find (r_key r) (rs_idx st'') = Some (entry_of version r s)) /\
     rs_count st'' = rs_count st0 + N.of_nat (length (recs_of its)) /\
-    rs_retired st'' = rs_retired st0 /\
+    rs_retired st' = rs_retired st0 /\ rs_retired st'' = rs_retired st0 /\
     (forall b, FEOX_DATA_START_BLOCK <= b < total ->
                (FreeSpaceProofs.free (rs_fs st'') b <-> ~ covered version FEOX_DATA_START_BLOCK its b)).
 Proof. exact quiescent_data_area_is_partitioned. Qed.
 Check quiescent_data_area_is_read_and_partitioned : forall c version total jl img,
   c_ro c = false -> has_token version = true -> total <= U64MAX ->
-  forall its st0,
+  forall its st0 fuel,
+  (length its < fuel)%nat ->
   rs_fs st0 = mkfs [] (total * FEOX_BLOCK_SIZE) 0 0 -> rs_last_end st0 = FEOX_DATA_START_BLOCK -> rs_idx st0 = [] ->
   total * FEOX_BLOCK_SIZE < U64 ->
   Forall (item_ok version) its -> distinct_keys (recs_of its) ->
   skipn (N.to_nat FEOX_DATA_START_BLOCK) img = ilayout version FEOX_DATA_START_BLOCK its ->
   total = FEOX_DATA_START_BLOCK + isum version its -> 0 < isum version its ->
   exists st' st'',
-    scan (S (length its)) c version total img FEOX_DATA_START_BLOCK st0 jl = Ok st' /\
+    scan fuel c version total img FEOX_DATA_START_BLOCK st0 jl = Ok st' /\
     (if rs_last_end st' <? total then fs_release st' (rs_last_end st') (total - rs_last_end st') else Ok st') = Ok st'' /\
     (forall r, In r (recs_of its) -> exists s, idx_find (r_key r) (rs_idx st'') = Some (entry_of version r s)) /\
     rs_count st'' = rs_count st0 + N.of_nat (length (recs_of its)) /\
-    rs_retired st'' = rs_retired st0 /\
+    rs_retired st' = rs_retired st0 /\ rs_retired st'' = rs_retired st0 /\
     (forall b, FEOX_DATA_START_BLOCK <= b < total ->
                (FreeSpaceProofs.free (rs_fs st'') b <-> ~ covered version FEOX_DATA_START_BLOCK its b)).
 Print Assumptions quiescent_data_area_is_read_and_partitioned.
+
+(* ---- the whole file.  Metadata: what Metadata::encode writes (fields, FM3C tag, CRC-32C and its
+   complement) Metadata::from_bytes reads back field for field; a journal never written decodes to
+   "clear".  open_image (read-write, TTL off) on a file whose selected metadata copy decodes to a
+   version-3 metadata, whose journal decodes to clear and whose data area is any quiescent layout:
+   it opens, leaves the file byte for byte as it is, and reports exactly the records (with their
+   timestamps, expiries and value lengths) and a free-space manager that holds exactly the blocks
+   no record covers ---- *)
+Theorem metadata_roundtrip : forall m, meta_ok m -> decode_meta (meta_block m) = Some m.
+Proof. exact decode_encode_meta. Qed.
+Check metadata_roundtrip : forall m, meta_ok m -> decode_meta (meta_block m) = Some m.
+Print Assumptions metadata_roundtrip.
+
+Theorem never_written_journal_decodes_clear : forall s0 s1 total, all_zero s0 = true -> all_zero s1 = true -> decode_journal s0 s1 total = Some (0, 1, []).
+Proof. exact never_written_journal_is_clear. Qed.
+Check never_written_journal_decodes_clear : forall s0 s1 total, all_zero s0 = true -> all_zero s1 = true -> decode_journal s0 s1 total = Some (0, 1, []).
+Print Assumptions never_written_journal_decodes_clear.
+
+Theorem open_reads_any_quiescent_file : forall c img m jgen jslot its,
+  c_ro c = false -> c_now c = None ->
+  (17 <= length img)%nat ->
+  let total := N.of_nat (length img) in
+  let mb := if select_meta (nth_block img 0) (nth_block img (N.to_nat FEOX_METADATA_BACKUP_BLOCK))
+            then nth_block img (N.to_nat FEOX_METADATA_BACKUP_BLOCK) else nth_block img 0 in
+  list_eqb (firstn 8 mb) SIGNATURE = true -> decode_meta mb = Some m -> has_token (m_version m) = true ->
+  decode_journal (slot_bytes img 0) (slot_bytes img 1) total = Some (jgen, jslot, []) ->
+  total * FEOX_BLOCK_SIZE < U64 ->
+  Forall (item_ok (m_version m)) its -> distinct_keys (recs_of its) ->
+  skipn (N.to_nat FEOX_DATA_START_BLOCK) img = ilayout (m_version m) FEOX_DATA_START_BLOCK its ->
+  exists o,
+    open_image c img = (Ok o, img) /\
+    o_version o = m_version m /\ o_img o = img /\
+    (forall r, In r (recs_of its) -> exists s, idx_find (r_key r) (o_idx o) = Some (entry_of (m_version m) r s)) /\
+    o_count o = N.of_nat (length (recs_of its)) /\
+    (forall b, FEOX_DATA_START_BLOCK <= b < total ->
+               (FreeSpaceProofs.free (o_fs o) b <-> ~ covered (m_version m) FEOX_DATA_START_BLOCK its b)).
+Proof. exact open_reads_a_quiescent_file. Qed.
+Check open_reads_any_quiescent_file : forall c img m jgen jslot its,
+  c_ro c = false -> c_now c = None ->
+  (17 <= length img)%nat ->
+  let total := N.of_nat (length img) in
+  let mb := if select_meta (nth_block img 0) (nth_block img (N.to_nat FEOX_METADATA_BACKUP_BLOCK))
+            then nth_block img (N.to_nat FEOX_METADATA_BACKUP_BLOCK) else nth_block img 0 in
+  list_eqb (firstn 8 mb) SIGNATURE = true -> decode_meta mb = Some m -> has_token (m_version m) = true ->
+  decode_journal (slot_bytes img 0) (slot_bytes img 1) total = Some (jgen, jslot, []) ->
+  total * FEOX_BLOCK_SIZE < U64 ->
+  Forall (item_ok (m_version m)) its -> distinct_keys (recs_of its) ->
+  skipn (N.to_nat FEOX_DATA_START_BLOCK) img = ilayout (m_version m) FEOX_DATA_START_BLOCK its ->
+  exists o,
+    open_image c img = (Ok o, img) /\
+    o_version o = m_version m /\ o_img o = img /\
+    (forall r, In r (recs_of its) -> exists s, idx_find (r_key r) (o_idx o) = Some (entry_of (m_version m) r s)) /\
+    o_count o = N.of_nat (length (recs_of its)) /\
+    (forall b, FEOX_DATA_START_BLOCK <= b < total ->
+               (FreeSpaceProofs.free (o_fs o) b <-> ~ covered (m_version m) FEOX_DATA_START_BLOCK its b)).
+Print Assumptions open_reads_any_quiescent_file.
 
 (* non-vacuity: two records (one of them spanning two blocks) on a v3 layout *)
 Example packed_area_is_scanned :
@@ -439,3 +498,24 @@ Example quiescent_area_is_scanned :
   | _ => False
   end.
 Proof. vm_compute. repeat split; reflexivity. Qed.
+
+(* non-vacuity for the whole file: both metadata copies written by encode_meta, a journal never
+   written, and the layout above -- open_image returns the two records and the two gaps *)
+Example quiescent_file_is_opened :
+  let r1 := mkrec [107; 49] (repeat 7 5000) 11 0 in
+  let r2 := mkrec [107; 50] [1; 2; 3] 12 99 in
+  let its := [IFree; IRec r1; IMark 2; IRec r2] in
+  let m := mkmeta 3 2 5033 (22 * 4096) 4096 0 1 2 4 (repeat 0 48) in
+  let z := repeat 0 BLOCK in
+  let img := [meta_block m; z; z; z; z; z; z; meta_block m; z; z; z; z; z; z; z; z] ++ ilayout 3 16 its in
+  meta_ok m /\
+  match open_image (mkcfg false false None 168) img with
+  | (Ok o, img') => img' = img /\ o_version o = 3 /\
+                    map (fun e => (e_key e, e_ts e, e_exp e, e_vlen e, e_sector e)) (o_idx o)
+                      = [([107; 49], 11, 0, 5000, 17); ([107; 50], 12, 99, 3, 21)] /\
+                    runs (o_fs o) = [(16, 1); (19, 2)] /\ o_count o = 2
+  | _ => False
+  end.
+Proof.
+  split; [constructor; vm_compute; repeat split; try reflexivity; try discriminate|]. vm_compute. repeat split; reflexivity.
+Qed.
